@@ -31,6 +31,7 @@ CONSTANTS NP,        \* number of processes
           BufCap, OqCap, PqCap,   \* capacities of the buffer, the object queue and the priority queue
           UEvs,      \* pre-scheduled user events: sequence of <<time, priority, instruction>> (run in dispatcher context)
           Alphabet,  \* set of instructions <<op, a1, a2, a3>> a process may execute
+          Roles,     \* <<>>: every process draws from the whole alphabet; else Roles[p] = the operation names process p may use
           MaxLen,    \* instructions per process
           MaxTime    \* state constraint on the clock
 
@@ -183,19 +184,24 @@ TruthsOf(S, ps, released) ==
        IN TruthsOf(Emit(S, [e |-> "Truth", p |-> p, pred |-> pred, v |-> v]), ps \ {p}, released)
 Truths(S, released) == TruthsOf(S, {p \in PIDs : S.k.call[p].op = "cwait"}, released)
 
-(* cmb_condition_signal: evaluate every waiter, resume those whose predicate holds *)
-RECURSIVE CondEval(_, _)
-CondEval(S, ws) ==
+(* cmb_condition_signal: evaluate every waiter (the code walks the heap array, whose order is not specified: the  *)
+(* model evaluates in pid order and the conformance check compares a run of evaluations as a set), then resume   *)
+(* those whose predicate holds, in queue order: priority, then waiting time, then process address               *)
+RECURSIVE CondPreds(_, _)
+CondPreds(S, ws) ==
   IF ws = {} THEN S
   ELSE LET x == CHOOSE y \in ws : \A z \in ws : y.p <= z.p
-           v == PredVal(S.k, x.pred)
-           S1 == Emit(S, [e |-> "Pred", p |-> x.p, pred |-> x.pred, v |-> v])
-           S2 == IF v THEN Sched(Emit(SetK(S1, [S1.k EXCEPT !.gq[GCOND] = @ \ {x}]),
-                                      [e |-> "GuardGrant", g |-> GCOND, p |-> x.p, all |-> 1, t |-> S.k.now]),
-                                 "condition", S.k.now, S.k.prio[x.p], x.p, SUCCESS)
-                 ELSE S1
-       IN CondEval(S2, ws \ {x})
-CondSignal(S) == CondEval(S, S.k.gq[GCOND])
+       IN CondPreds(Emit(S, [e |-> "Pred", p |-> x.p, pred |-> x.pred, v |-> PredVal(S.k, x.pred)]), ws \ {x})
+RECURSIVE CondGrants(_, _)
+CondGrants(S, ws) ==
+  IF ws = {} THEN S
+  ELSE LET F == {x \in ws : IsBest(ws, x)}
+           x == CHOOSE y \in F : \A z \in F : y.p <= z.p
+           S2 == Sched(Emit(SetK(S, [S.k EXCEPT !.gq[GCOND] = @ \ {x}]),
+                            [e |-> "GuardGrant", g |-> GCOND, p |-> x.p, all |-> 1, t |-> S.k.now]),
+                       "condition", S.k.now, S.k.prio[x.p], x.p, SUCCESS)
+       IN CondGrants(S2, ws \ {x})
+CondSignal(S) == LET ws == S.k.gq[GCOND] IN CondGrants(CondPreds(S, ws), {x \in ws : PredVal(S.k, x.pred)})
 
 GuardSignal(S, g) ==
   LET S1 == IF S.k.gq[g] = {} THEN S
@@ -653,6 +659,7 @@ Step(p) ==
                    /\ IF Legal(k, p, in) THEN Apply(Exec1(S0(kpc), p, in)) ELSE Apply(S0(kpc))   \* illegal now: skipped by the harness
                    /\ UNCHANGED script
               ELSE \E in \in Alphabet :
+                     /\ IF Roles = <<>> THEN TRUE ELSE in[1] \in Roles[p]
                      /\ Legal(k, p, in)
                      /\ Apply(Exec1(S0(kpc), p, in))
                      /\ script' = [script EXCEPT ![p] = Append(@, in)]
